@@ -19,7 +19,38 @@ UNITS = {
     },
 }
 
+UNITS['c16'] = {
+    'template': 'contracts/c16.vrs',
+    'mutants': [
+        ('p2u_len_utf16_is_1', 'character += c.len_utf16() as u32; } else if c ==', 'character += 1; } else if c ==', ['C16.p2u']),
+        ('p2u_no_cr_stop', "|| c == '\\n' || c == '\\r' {", "|| c == '\\n' {", ['C16.p2u']),
+        ('u2p_gt_instead_of_ge', 'if utf8_index >= index {', 'if utf8_index > index {', ['C16.u2p']),
+        ('u2p_no_column_reset', 'line += 1; character = 0;', 'line += 1;', ['C16.u2p']),
+        ('range_end_is_start', 'let end = utf8_to_position(text, range.end);', 'let end = utf8_to_position(text, range.start);', ['C16.range']),
+    ],
+}
+
 PROPS = {
+    'C16': {
+        'units': ['c16'],
+        'level': 'proof',
+        'obligation_prefixes': ['C16.'],
+        'technique': 'Verus loop invariants on the real conversion functions against an independent reference semantics of LSP positions; round-trip, clamping and span selection as verified callers',
+        'level_text': 'Deductive proof (Verus/Z3) for every text below 2^30 characters, every offset and every position: the real position_to_utf8 / '
+                      'utf8_to_position / utf8_range_to_position equal reference spec functions written from the LSP definition; round trip, clamping '
+                      'and span selection are verified callers of those contracts.',
+        'level_note': 'Trusted: char::len_utf16 (1 below U+10000, else 2); vstd\'s model of str::chars and char::len_utf8; texts < 2^30 chars; '
+                      'positions whose column falls inside a surrogate pair and texts with a lone CR are outside the decided domain; '
+                      'utf8_to_char_index (span.rs) only by a bounded Kani harness (labelled bounded, not counted).',
+        'design_ref': 'DESIGN.md section 5, C16',
+        'explanation': 'Real functions verified against reference spec functions (off/lines_before/col16/skip_lines/advance_col); property clauses are exec callers verified modularly.',
+        'assumptions': [
+            'machine arithmetic is checked (no overflow) under the stated bound: text shorter than 2^30 characters',
+            'round trip is decided for LF / CRLF texts (no lone CR); the offset strictly between CR and LF is a separate obligation (known finding)',
+            'position columns strictly inside a surrogate pair: only totality and boundary-ness of the result are decided',
+        ],
+        'not_decided': ['utf8_to_char_index / CharSpan::from beyond the Kani bound'],
+    },
     'C14': {
         'units': ['c14'],
         'level': 'proof',
@@ -66,7 +97,6 @@ NOT_APPLICABLE = {
     'C10': 'contract not completed yet',
     'C11': 'contract not completed yet',
     'C15': 'contract not completed yet',
-    'C16': 'contract not completed yet',
 }
 
 
